@@ -28,7 +28,7 @@ echo "$BL" | grep -q ", 0 missing" || { echo "BASELINE-BROKEN-BY-PATCH"; exit 6;
 mkdir -p "$S/res"
 VERDICTS=""
 for C in $CHECKS; do
-  MUT_TAIL=6 MUT_REPLAY_BYTES=1200 /verif/tools/mutcheck.sh "$S/rebased.diff" "$C" > "$S/res/$C.log" 2>&1; RC=$?
+  MUT_TAIL=25 MUT_REPLAY_BYTES=1500 /verif/tools/mutcheck.sh "$S/rebased.diff" "$C" > "$S/res/$C.log" 2>&1; RC=$?
   LINE=$(grep -m1 "^VIOLATION" "$S/res/$C.log" || true)
   echo "check $C: rc=$RC $LINE"
   VERDICTS="$VERDICTS $C:rc=$RC"
